@@ -108,6 +108,31 @@ def handleC01 (args : List String) (obs : String) : String :=
       | some (outcome, left) => verdictOf (ReadSpec.check c.cap c.all outcome left)
     model ++ "\t" ++ verdict
 
+/-- Iterates the denotational reader over what is left, as a connection does for bodiless requests. -/
+def seqOutcomes (cap : Nat) (u : Bytes → Option Url) : Nat → Bytes → List String → List String × Bytes
+  | 0, all, acc => (acc.reverse, all)
+  | fuel + 1, all, acc =>
+    let r := readRequestD false false u cap all
+    match r.1 with
+    | .ok m => seqOutcomes cap u fuel r.2 (showMeta m :: acc)
+    | other => ((showOut other :: acc).reverse, r.2)
+
+/-- c01s `<cap> <stream> <end> <sizes> <pending>`: a pipeline of bodiless requests through one buffer.
+    Targets are `/<digits>`; the URL parser is the identity on them. -/
+def handleSeq (args : List String) (obs : String) : String :=
+  match args with
+  | [cap, stream, _e, _sizes, _pend] =>
+    match cap.toNat?, decBytes stream with
+    | some cap, some st =>
+      let u : Bytes → Option Url := fun t => some ⟨t, none⟩
+      let (outs, left) := seqOutcomes cap u 66 st []
+      let model := "|".intercalate outs ++ " left=" ++ encBytes left
+      -- oracle: the implementation must agree with the schedule-free reading of the same bytes
+      -- (outcome independent of fragmentation; nothing consumed past each blank line)
+      model ++ "\t" ++ (if model == obs then "ok" else "FAIL:sequence-depends-on-fragmentation:")
+    | _, _ => "bad-case\tFAIL:bad-case"
+  | _ => "bad-case\tFAIL:bad-case"
+
 /-- `key=value` lookup in an `ok ...` observation. -/
 def obsField (obs : String) (key : String) : Option String :=
   (obs.splitOn " ").findSome? fun kv =>
